@@ -10,6 +10,12 @@ Lemma code_result_shuffle_fixed : result_shuffle_fixed = true.
 Proof. reflexivity. Qed.
 Lemma code_transport_freezes : transport_freezes_env = true.
 Proof. reflexivity. Qed.
+Lemma code_reshuffle_named_by_inv : reshuffle_named_by_inv = true.
+Proof. reflexivity. Qed.
+Lemma code_config_partitioned : cfg_partitioned code_config = true.
+Proof. exact code_result_shuffle_fixed. Qed.
+Lemma code_config_named_by_inv : cfg_named_by_inv code_config = true.
+Proof. exact code_reshuffle_named_by_inv. Qed.
 
 (* ---- small list facts ---- *)
 Lemma nth_error_app_l {A} (l l' : list A) i x : nth_error l i = Some x -> nth_error (l ++ l') i = Some x.
